@@ -182,9 +182,10 @@ class World:
             path = p[1] if act == "SetQ" else "deferred"
             dt, qq = self.q_vals[nq]
             # change only what differs from the world's current values: a fixed_q change that is NOT followed by a fixed_dt change must be enough
-            for name, v in (("fixed_q", qq), ("fixed_dt", dt)):
-                if getattr(w, name) == v:
-                    continue
+            todo = [(name, v) for name, v in (("fixed_q", qq), ("fixed_dt", dt)) if getattr(w, name) != v]
+            if not todo:
+                todo = [("fixed_q", qq)]        # the setter is called even if the value is already stored (e.g. by a deferred call): it runs the update
+            for name, v in todo:
                 if path == "deferred":
                     getattr(w, "set_" + name)(v, run_updates=False)
                 elif path == "world_prop":
